@@ -203,18 +203,28 @@ inductive Ev where
 /-- The pc at which the hook sits (after `RLock`). -/
 def hookPc (v : Variant) : ConsPc := match v with | .cur => .gHoldWait | .fixed => .gHold
 
-structure Sim where
+/-- What the observer (the harness) knows besides the states: which consumers it stops at the hook,
+how many issuer requests it has seen, how many consumer calls it has made. -/
+structure Ctx where
+  parked : List Nat := []   -- consumers that stop at the hook (installed and not released)
+  reqSeen : Nat := 0        -- number of issuer requests observed so far
+  ncons : Nat := 0          -- number of consumer calls made so far = index of the next one
+  deriving Repr
+
+structure Sim extends Ctx where
   states : List St
-  parked : List Nat      -- consumers that stop at the hook (installed and not released)
-  reqSeen : Nat := 0     -- number of issuer requests observed so far
   deriving Repr
 
 def insertNew (acc : List St) (s : St) : List St := if acc.contains s then acc else acc ++ [s]
 
+/-- Consumer `i` is held by the harness at the hook. -/
+def heldAtHook (v : Variant) (parked : List Nat) (s : St) (i : Nat) : Bool :=
+  parked.contains i && s.cons[i]? == some (hookPc v)
+
 def tauSucc (v : Variant) (parked : List Nat) (s : St) : List St :=
   let r := match step v s .run with | some t => [t] | none => []
   let cs := (List.range s.cons.length).filterMap fun i =>
-    if parked.contains i && s.cons[i]? == some (hookPc v) then none else step v s (.cons i)
+    if heldAtHook v parked s i then none else step v s (.cons i)
   r ++ cs
 
 /-- τ-closure by work-list with fuel. -/
@@ -235,42 +245,48 @@ def tauTerminal (v : Variant) (parked : List Nat) (s : St) : Bool := (tauSucc v 
 def pendingOf (s : St) : List Nat :=
   (List.range s.cons.length).filter fun i => match s.cons[i]? with | some pc => !pc.returned | none => false
 
-def applyLbl (v : Variant) (m : Sim) (l : Lbl) : Sim :=
-  { m with states := m.states.filterMap (step v · l) }
-
-/-- One observable event: successor state set (before τ-closure). -/
-def simEvent (v : Variant) (m : Sim) : Ev → Sim
-  | .callRun => applyLbl v m .callRun
-  | .callReady => applyLbl v m .callReady
-  | .callGet p =>
-    let n := match m.states with | s :: _ => s.cons.length | [] => 0
-    let m' := applyLbl v m .callGet
-    if p then { m' with parked := n :: m'.parked } else m'
-  | .callRun2 => applyLbl v m .runLoser
-  | .park i => { m with states := m.states.filter fun s => m.parked.contains i && s.cons[i]? == some (hookPc v) }
-  | .release i => { m with parked := m.parked.filter (· != i) }
+/-- Meaning of one observable event for ONE model state: the state after it, or `none` if the state
+is incompatible with the observation.  Calls and issuer answers are labels of the LTS; parks,
+returns and quiescence are predicates on the state. -/
+def evState (v : Variant) (c : Ctx) (s : St) : Ev → Option St
+  | .callRun => step v s .callRun
+  | .callReady => step v s .callReady
+  | .callGet _ => step v s .callGet
+  | .callRun2 => step v s .runLoser
+  | .park i => if heldAtHook v c.parked s i then some s else none
+  | .release _ => some s
   | .cancel i =>
-    -- the select may also take readyCh if it is closed: states where i already returned stay
-    { m with states := m.states.filterMap fun s =>
-        match step v s (.ctxDone i) with
-        | some t => some t
-        | none => match s.cons[i]? with | some (.yDone _) => some s | _ => none }
+    -- the select may also take readyCh if it is closed: a state where i already returned stays
+    match step v s (.ctxDone i) with
+    | some t => some t
+    | none => match s.cons[i]? with | some (.yDone _) => some s | _ => none
   | .req k =>
-    { m with reqSeen := k + 1, states := m.states.filterMap fun s =>
-        if s.nfetch = k then
-          if s.run = .fetch then some s else step v s .renew
-        else none }
-  | .rep ok => applyLbl v m (.reply ok)
-  | .ret i pc => { m with states := m.states.filter fun s => s.cons[i]? == some pc }
-  | .runRet err => { m with states := m.states.filter fun s => if err then s.run = .retErr else s.run = .stopped }
-  | .stopRun => { m with states := m.states.filterMap fun s => match step v s .stop with | some t => some t | none => if s.run = .retErr then some s else none }
-  | .nop => m
+    if s.nfetch = k then
+      if s.run = .fetch then some s else step v s .renew
+    else none
+  | .rep ok => step v s (.reply ok)
+  | .ret i pc => if s.cons[i]? == some pc then some s else none
+  | .runRet err => if (if err then s.run = .retErr else s.run = .stopped) then some s else none
+  | .stopRun => match step v s .stop with | some t => some t | none => if s.run = .retErr then some s else none
+  | .nop => some s
   | .quiet p =>
     -- settled: no internal step left, the pending calls are exactly `p`, and a request the model has
     -- outstanding at the issuer has been observed there
-    { m with states := m.states.filter fun s =>
-        tauTerminal v m.parked s && pendingOf s == p &&
-        (if s.run = .fetch ∨ s.run = .rotFetch then m.reqSeen == s.nfetch + 1 else true) }
+    if tauTerminal v c.parked s && pendingOf s == p &&
+        (if s.run = .fetch ∨ s.run = .rotFetch then c.reqSeen == s.nfetch + 1 else true)
+    then some s else none
+
+/-- The observer's knowledge after an event. -/
+def Ctx.after (c : Ctx) : Ev → Ctx
+  | .callReady => { c with ncons := c.ncons + 1 }
+  | .callGet p => { c with ncons := c.ncons + 1, parked := if p then c.ncons :: c.parked else c.parked }
+  | .release i => { c with parked := c.parked.filter (· != i) }
+  | .req k => { c with reqSeen := k + 1 }
+  | _ => c
+
+/-- One observable event: successor state set (before τ-closure). -/
+def simEvent (v : Variant) (m : Sim) (e : Ev) : Sim :=
+  { toCtx := m.toCtx.after e, states := m.states.filterMap (evState v m.toCtx · e) }
 
 /-- Runs the trace; `none` = accepted, `some k` = event `k` had no compatible model state. -/
 def acceptFrom (v : Variant) : Sim → Nat → List Ev → Option Nat × Sim
@@ -280,7 +296,7 @@ def acceptFrom (v : Variant) : Sim → Nat → List Ev → Option Nat × Sim
     if m'.states.isEmpty then (some k, m) else acceptFrom v m' (k + 1) es
 
 def accept (v : Variant) (tr : List Ev) : Option Nat × Sim :=
-  acceptFrom v (close v { states := [init], parked := [] }) 0 tr
+  acceptFrom v (close v { states := [init] }) 0 tr
 
 /-! ## (b) renewal automaton on a fake clock -/
 
@@ -408,6 +424,16 @@ inductive Act where
 def act (s : RN) : Act → RN
   | .adv d => advance s d
   | .anchors a => setAnchors s a
+
+/-- The states after each action of a scenario (what the driver prints and the harness compares). -/
+def runActs (s : RN) : List Act → List RN
+  | [] => []
+  | a :: rest => act s a :: runActs (act s a) rest
+
+/-- Scenario well-formedness: the clock only moves forward. -/
+def Act.ok : Act → Bool
+  | .adv d => decide (0 < d)
+  | .anchors _ => true
 
 /-- Most recent successful request of a log (newest first). -/
 def lastGood : List Req → Option Nat
